@@ -542,18 +542,17 @@ func (s *Store[K, V]) DeleteWithSecondary(key K) error {
 	}
 	// the key may live in the secondary cache only (demoted earlier), so the
 	// secondary cache is asked regardless of what the memory tier holds
+	var err error
 	if s.secondaryCache != nil {
-		err := s.secondaryCache.Delete(key)
-		if err != nil {
-			shard.mu.Unlock()
-			return err
-		}
+		err = s.secondaryCache.Delete(key)
 	}
 	shard.mu.Unlock()
+	// the entry has left the map whatever the secondary cache answered: the
+	// policy has to hear of it, or it keeps counting an entry that is gone
 	if ok {
 		s.sendWrite(WriteBufItem[K, V]{entry: entry, code: REMOVE})
 	}
-	return nil
+	return err
 }
 
 func (s *Store[K, V]) Len() int {
